@@ -395,8 +395,9 @@ def xhex(s):
     return 'x' + s.encode('latin-1').hex()
 
 
-def gen_mapbc_text(rng):
-    """-> (text, expected list of (id, type) or None when the file is deliberately malformed)"""
+def gen_mapbc_text(rng, plain=False):
+    """-> (text, expected list of (id, type) or None when the file is deliberately malformed); plain: single blanks
+    between the fields (ref_phys_read_mapbc_token insists on exactly one space after the type)"""
     n = rng.choice([0, 1, 2, 3, 6, 6, 12, 30])
     names = ['viscous_solid', 'farfield_riem', 'symmetry_y', 'tangency', 'wall  with spaces', '', 'x', 'inflate_me', '4000',
              'name-7 9']
@@ -405,7 +406,7 @@ def gen_mapbc_text(rng):
         i = rng.choice([j + 1, j + 1, rng.randint(1, 8), rng.randint(-5, 100000)])
         t = rng.choice(VISCOUS + OTHER_BC)
         recs.append((i, t, rng.choice(names)))
-    sep = lambda: rng.choice([' ', ' ', '  ', '\t', ' \t '])
+    sep = (lambda: ' ') if plain else (lambda: rng.choice([' ', ' ', '  ', '\t', ' \t ']))
     head = rng.choice(['', '', ' ', '\t']) + str(n) + rng.choice(['', '', ' ', ' patches', '\r'])
     lines = [head]
     for (i, t, nm) in recs:
@@ -459,7 +460,7 @@ def gen_bc(rng, tier):
         elif r < 0.4:
             ops.append(' '.join(['mapbc', 'nofile'] + pre))
         elif r < 0.55:
-            text, _ = gen_mapbc_text(rng)
+            text, _ = gen_mapbc_text(rng, plain=rng.random() < 0.7)
             if not text.endswith('\n') or rng.random() < 0.02:
                 text += rng.choice(['\n', ''])
             tok = rng.choice(['viscous', 'inflate', 'wall', '', 'x', 'farfield_riem', 'sym', ' '])
@@ -489,10 +490,6 @@ def gen_bc(rng, tier):
             'mapbc_token x31 x41', 'mapbc x310a 1', 'wall_bc', 'wall_bc x', 'local_wall', 'viscous_tags x 1 2 3',
             'mapbc_token nofile x41']
     return ops
-
-
-def _ints_ok(text):
-    return True
 
 
 def oracle_bc(ops, impl):
@@ -602,8 +599,6 @@ def wellformed_mapbc(text):
                 return None
         recs.append((int(t[0]), int(t[1])))
     if len(recs) != n:
-        return None
-    if n > 0 and not text.endswith('\n') and len(lines) == 1 + n and False:
         return None
     return recs
 
